@@ -5,6 +5,7 @@
 import SoundeventModel.Raster
 import Proofs.Lemmas.Axis
 import Proofs.Lemmas.Raster
+import Proofs.Lemmas.Extend
 namespace SE.Proofs.C20
 open SE SE.Axis SE.Raster
 
@@ -352,6 +353,134 @@ theorem C20_box_cells_by_coordinates (t : Template) (hst : Sorted t.time) (hsf :
       cases g <;> rfl
 
 
+/-! ## regular (range) axes: every lattice point and every bin centre (follow-up: HISTORIES.md 4) -/
+
+/-- on a regular axis `start, start + step, …` (what `create_time_range` / `create_frequency_range`
+    build) a position in `[start + k·step, start + (k+1)·step)` that is not beyond the last coordinate
+    lies in bin `k` -/
+theorem C20_lattice_bin (start step : Rat) (n k : Nat) (v : Rat) (hs : 0 < step) (hk : k < n)
+    (h1 : start + (k : Rat) * step ≤ v) (h2 : v < start + ((k : Rat) + 1) * step)
+    (h3 : v ≤ start + ((n - 1 : Nat) : Rat) * step) :
+    binOf (lattice start step n) v = k := by
+  have hne := lattice_ne_nil start step n (by omega)
+  have hsorted := lattice_sorted start step n (Rat.le_of_lt hs)
+  have hhead : (lattice start step n).head hne = start := by
+    rw [List.head_eq_getElem, lattice_getElem]; simp; grind
+  have hlast : (lattice start step n).getLast hne = start + ((n - 1 : Nat) : Rat) * step := by
+    rw [List.getLast_eq_getElem, lattice_getElem]; simp
+  have hk0 : (0 : Rat) ≤ (k : Rat) * step := Rat.mul_nonneg (natCast_nonneg k) (Rat.le_of_lt hs)
+  obtain ⟨hb, hle, hlt⟩ := (C20_bin_of_start (lattice start step n) v hsorted hne).2.2
+    (by rw [hhead]; grind) (by rw [hlast]; exact h3)
+  rw [lattice_getElem] at hle
+  have hbn : binOf (lattice start step n) v < n := by simpa using hb
+  rcases Nat.lt_trichotomy (binOf (lattice start step n) v) k with hlt' | heq | hgt
+  · exfalso
+    have hb1 : binOf (lattice start step n) v + 1 < (lattice start step n).length := by simp; omega
+    have := hlt hb1
+    rw [lattice_getElem] at this
+    have hc : ((binOf (lattice start step n) v + 1 : Nat) : Rat) ≤ (k : Rat) := Rat.natCast_le_natCast.mpr (by omega)
+    have := Rat.mul_le_mul_of_nonneg_right hc (Rat.le_of_lt hs)
+    grind
+  · exact heq
+  · exfalso
+    have hc : ((k + 1 : Nat) : Rat) ≤ ((binOf (lattice start step n) v : Nat) : Rat) := Rat.natCast_le_natCast.mpr (by omega)
+    have := Rat.mul_le_mul_of_nonneg_right hc (Rat.le_of_lt hs)
+    simp at this
+    grind
+
+
+/-- every lattice point `start + k·step` lies in bin `k` (never in bin `k - 1`: a box that starts on a
+    bin edge starts in that bin, a box that ends on it does not include it) and every bin centre in its
+    own bin - the statement the lattice sweep of the check evaluates on the real code for every point of
+    non-dyadic axes, where binary64 quotients `(v - start) / step` fall below the integer -/
+theorem C20_lattice_point_bin (start step : Rat) (n k : Nat) (hs : 0 < step) (hk : k < n) :
+    binOf (lattice start step n) (start + (k : Rat) * step) = k ∧
+    (k + 1 < n → binOf (lattice start step n) (start + (k : Rat) * step + step / 2) = k) := by
+  have hkn : (k : Rat) ≤ ((n - 1 : Nat) : Rat) := Rat.natCast_le_natCast.mpr (by omega)
+  have hmul := Rat.mul_le_mul_of_nonneg_right hkn (Rat.le_of_lt hs)
+  refine ⟨C20_lattice_bin start step n k _ hs hk (Rat.le_refl) (by grind) (by grind), ?_⟩
+  intro hk1
+  have hkn1 : ((k + 1 : Nat) : Rat) ≤ ((n - 1 : Nat) : Rat) := Rat.natCast_le_natCast.mpr (by omega)
+  have hmul1 := Rat.mul_le_mul_of_nonneg_right hkn1 (Rat.le_of_lt hs)
+  simp at hmul1
+  exact C20_lattice_bin start step n k _ hs hk (by grind) (by grind) (by grind)
+
+/-- over the rationals the arithmetic locator is right: inside the axis the bin is `⌊(v - start) / step⌋`.
+    An implementation that computes the bin this way in binary64 differs from the lookup only through
+    rounding (which the model cannot exhibit and the lattice sweep probes on the real code) -/
+theorem C20_lattice_floor (start step : Rat) (n : Nat) (v : Rat) (hs : 0 < step) (hn : 0 < n)
+    (hlo : start ≤ v) (hhi : v ≤ start + ((n - 1 : Nat) : Rat) * step) :
+    binOf (lattice start step n) v = ((v - start) / step).floor.toNat := by
+  have hne : step ≠ 0 := by grind
+  have hq : (v - start) / step * step = v - start := Rat.div_mul_cancel hne
+  have hq0 : 0 ≤ (v - start) / step := by
+    rw [Rat.div_def]
+    exact Rat.mul_nonneg (by grind) (Rat.le_of_lt (Rat.inv_pos.mpr hs))
+  have hf0 : 0 ≤ ((v - start) / step).floor := Rat.le_floor_iff.mpr (by simpa using hq0)
+  obtain ⟨k, hk⟩ : ∃ k : Nat, ((v - start) / step).floor = (k : Int) := ⟨_, (Int.toNat_of_nonneg hf0).symm⟩
+  have hfl : (k : Rat) ≤ (v - start) / step := by
+    have := Rat.floor_le ((v - start) / step)
+    rw [hk] at this; simpa [Rat.intCast_natCast] using this
+  have hfu : (v - start) / step < (k : Rat) + 1 := by
+    have := Rat.lt_floor_add_one ((v - start) / step)
+    rw [hk] at this; simpa [Rat.intCast_natCast] using this
+  have h1 : start + (k : Rat) * step ≤ v := by
+    have := Rat.mul_le_mul_of_nonneg_right hfl (Rat.le_of_lt hs)
+    grind
+  have h2 : v < start + ((k : Rat) + 1) * step := by
+    have := Rat.mul_lt_mul_of_pos_right hfu hs
+    grind
+  have hkn : k < n := by
+    rcases Nat.lt_or_ge k n with h | h
+    · exact h
+    · exfalso
+      have hc : (((n - 1 : Nat) + 1 : Nat) : Rat) ≤ (k : Rat) := Rat.natCast_le_natCast.mpr (by omega)
+      have := Rat.mul_le_mul_of_nonneg_right hc (Rat.le_of_lt hs)
+      simp at this
+      grind
+  rw [C20_lattice_bin start step n k v hs hkn h1 h2 hhi, hk]
+  simp
+
+
+/-! ## the call and its history (follow-up: HISTORIES.md 1, 2) -/
+
+/-- positional versus keyword: passing the first `k` of the optional arguments positionally, in the
+    documented order `values, fill, dtype, xdim, ydim, all_touched`, and the rest by keyword binds
+    exactly like the all-keyword call, for every `k` - never a `TypeError`, always the same raster -/
+theorem C20_positional_call (B : Burner) (t : Template) (geoms : List Geom) (vals : List Arg)
+    (hlen : vals.length ≤ optionalOrder.length) (k : Nat) (hk : k ≤ vals.length) :
+    rasterizeCall B t geoms (vals.take k) ((optionalOrder.zip vals).drop k) =
+        some (rasterizeBound B t geoms (optionalOrder.zip vals)) ∧
+    rasterizeCall B t geoms (vals.take k) ((optionalOrder.zip vals).drop k) =
+        rasterizeCall B t geoms [] (optionalOrder.zip vals) := by
+  have h0 := bindCall_split optionalOrder optionalOrder_nodup vals hlen 0 (Nat.zero_le _)
+  simp only [List.take_zero, List.drop_zero] at h0
+  simp [rasterizeCall, bindCall_split optionalOrder optionalOrder_nodup vals hlen k hk, h0]
+
+/-- what the bound arguments mean: values, fill and all_touched are the ones written, whatever is
+    written for dtype and the dimension names -/
+theorem C20_bound_arguments (B : Burner) (t : Template) (geoms : List Geom) (vs : Values) (f : Rat) (a : Bool)
+    (d x y : Arg) :
+    rasterizeBound B t geoms (optionalOrder.zip [.values vs, .num f, d, x, y, .flag a]) =
+      rasterizeG B t geoms vs f a := by
+  simp [rasterizeBound, optionalOrder, paramOrder, rasterizeD, List.lookup, Arg.values?, Arg.num?, Arg.flag?]
+
+/-- histories: after any history of calls and of rasters edited by the caller, further calls return the
+    answers to their own requests alone and leave every raster the caller already holds as it is (the
+    code keeps no state: every step of a history is judged by the base model) -/
+theorem C20_history_independent (B : Burner) (evs : List Event) (calls : List Request) :
+    runSession B (evs ++ calls.map Event.call) = runSession B evs ++ calls.map (answer B) := by
+  rw [runSession_append, foldl_step_calls]
+
+/-- a caller who overwrites the raster it was given changes that raster only -/
+theorem C20_poison_local (B : Burner) (evs : List Event) (k : Nat) (g : Grid) (i : Nat) (h : i ≠ k) :
+    (runSession B (evs ++ [.poison k g]))[i]? = (runSession B evs)[i]? := by
+  rw [runSession_append]
+  simp only [List.foldl_cons, List.foldl_nil, step]
+  rw [List.getElem?_modify]
+  simp [Ne.symm h]
+
+
 -- non-vacuity
 example : binOf [0, 1/4, 1/2, 3/4] (3/10) = 1 := by decide +kernel
 example : binOf [0, 1/4, 1/2, 3/4] 2 = 4 := by decide +kernel
@@ -374,5 +503,14 @@ example : CentreRule (fun s _ _ _ i j => match s with | .poly rs => insideRings 
 example : coversCell ⟨true, [0, 1/4, 1/2, 3/4], [0, 100, 200]⟩ (.box (1/4) 100 (3/4) 300) 1 2 = true := by decide +kernel
 example : coversCell ⟨true, [0, 1/4, 1/2, 3/4], [0, 100, 200]⟩ (.box (1/4) 100 (3/4) 300) 3 2 = false := by decide +kernel
 example : clampIndexR 0 (3/4) (3/10) 4 2 = 1 ∧ clampIndexR 0 (3/4) 2 4 4 = 4 ∧ clampIndexR 0 (3/4) (-1) 4 0 = 0 := by decide +kernel
+example : binOf (lattice 0 (1/100) 100) (29/100) = 29 ∧ binOf (lattice 0 (1/100) 100) (29/100 + 1/200) = 29 := by decide +kernel
+example : ((29/100 - 0 : Rat) / (1/100)).floor.toNat = 29 := by decide +kernel
+example : rasterizeCall refBurner ⟨true, [0, 1], [0]⟩ [.point 0 0] [.num 5, .num (-1)] [("all_touched", .flag true)]
+    = some (.ok ⟨[0, 1], [0], [[5], [-1]]⟩) := by decide +kernel
+example : rasterizeCall refBurner ⟨true, [0, 1], [0]⟩ [.point 0 0] [.num 5] [("values", .num 3)] = none := by decide +kernel
+example : rasterizeCall refBurner ⟨true, [0, 1], [0]⟩ [.point 0 0] [] [("colour", .num 3)] = none := by decide +kernel
+example : runSession refBurner [.call ⟨⟨true, [0, 1], [0]⟩, [.point 0 0], none, none, none⟩, .poison 0 [[9], [9]],
+      .call ⟨⟨true, [0, 1], [0]⟩, [.point 1 0], none, none, none⟩]
+    = [.ok ⟨[0, 1], [0], [[9], [9]]⟩, .ok ⟨[0, 1], [0], [[0], [1]]⟩] := by decide +kernel
 
 end SE.Proofs.C20
